@@ -23,9 +23,9 @@ struct Jar : public session_interface_cookie_adapter { std::string value; int cl
 	std::set<std::string> get_cookie_names(){ std::set<std::string> s; s.insert("cppcms_session"); return s; } };
 
 static std::string hexkey(size_t n,int salt){ std::string k; for(size_t i=0;i<n;i++){ char b[3]; snprintf(b,3,"%02x",(unsigned)((i*37+salt*11+5)&0xff)); k+=b; } return k; }
-struct Cfg { std::string label; std::unique_ptr<sessions::encryptor_factory> (*make)(const Cfg &); std::string algo,algo2; size_t klen,klen2; int salt; bool aes; };
-static std::unique_ptr<sessions::encryptor_factory> mk(const Cfg &c){ std::unique_ptr<sessions::encryptor_factory> f; crypto::key k(hexkey(c.klen,c.salt));
-	if(!c.aes) f.reset(new sessions::impl::hmac_factory(c.algo,k)); else if(c.algo2.empty()) f.reset(new sessions::impl::aes_factory(c.algo,k)); else f.reset(new sessions::impl::aes_factory(c.algo,k,c.algo2,crypto::key(hexkey(c.klen2,c.salt+1)))); return f; }
+struct Cfg { std::string label; std::unique_ptr<sessions::encryptor_factory> (*make)(const Cfg &); std::string algo,algo2; size_t klen,klen2; int salt; bool aes; std::string key_override,key2_override; /* hex; used by the key-sensitivity pass */ };
+static std::unique_ptr<sessions::encryptor_factory> mk(const Cfg &c){ std::unique_ptr<sessions::encryptor_factory> f; crypto::key k(c.key_override.empty()?hexkey(c.klen,c.salt):c.key_override);
+	if(!c.aes) f.reset(new sessions::impl::hmac_factory(c.algo,k)); else if(c.algo2.empty()) f.reset(new sessions::impl::aes_factory(c.algo,k)); else f.reset(new sessions::impl::aes_factory(c.algo,k,c.algo2,crypto::key(c.key2_override.empty()?hexkey(c.klen2,c.salt+1):c.key2_override))); return f; }
 static std::vector<Cfg> configs(bool th){ std::vector<Cfg> v; auto add=[&](const std::string &l,const std::string &a,size_t kl,bool aes,const std::string &a2="",size_t kl2=0){ Cfg c; c.label=l; c.algo=a; c.klen=kl; c.aes=aes; c.algo2=a2; c.klen2=kl2; c.salt=v.size(); c.make=mk; v.push_back(c); };
 	add("hmac-sha1/key20","sha1",20,false); add("hmac-sha256/key16","sha256",16,false); add("aes128/derived16","aes128",16,true); add("aes256-cbc+hmac-sha256/split","aes256",32,true,"sha256",32);
 	if(th){ add("hmac-md5/key16","md5",16,false); add("hmac-sha224/key64","sha224",64,false); add("hmac-sha384/key129","sha384",129,false); add("hmac-sha512/key64","sha512",64,false); add("aes128/combined36","aes128",36,true); add("aes192/combined44","aes192",44,true); add("aes256/combined52","aes256",52,true); add("aes192/derived24","aes192",24,true); add("aes128-cbc+hmac-sha1/split","aes128",16,true,"sha1",20); }
@@ -90,6 +90,12 @@ static void run_config(const Cfg &cfg,const std::vector<Cfg> &all,session_pool &
 	// transplant: cookies issued under other key material / algorithms
 	for(size_t k=0;k<all.size();k++){ if(all[k].label==cfg.label) continue; std::unique_ptr<sessions::encryptor_factory> f2=all[k].make(all[k]); sessions::session_cookies other(f2->get()); for(int v=0;v<2;v++){ Jar jar; session_interface si(pool,jar); other.save(si,payload(17,v),g_now+100,false,false); try_cookie(w,si.temp_cookie_,cfg.label+" transplant-from "+all[k].label); vf::guard("transplants"); } }
 	{ Cfg same=cfg; same.salt+=100; std::unique_ptr<sessions::encryptor_factory> f2=same.make(same); sessions::session_cookies other(f2->get()); Jar jar; session_interface si(pool,jar); other.save(si,payload(17,0),g_now+100,false,false); try_cookie(w,si.temp_cookie_,cfg.label+" transplant-from same algorithm, other key"); }
+	// key sensitivity: EVERY byte of the key material matters - a cookie issued under the configured key must be refused by the same configuration with any single
+	// key byte changed (and a cookie issued under the changed key must be refused here)
+	{ std::string k1=hexkey(cfg.klen,cfg.salt), k2= cfg.algo2.empty()?std::string():hexkey(cfg.klen2,cfg.salt+1); for(int which=0;which<(k2.empty()?1:2);which++){ const std::string &base= which?k2:k1; for(size_t byte=0;byte*2<base.size();byte++){ Cfg other=cfg; std::string m=base; m[byte*2]= m[byte*2]=='0'?'1':'0'; if(which) other.key2_override=m; else other.key_override=m; std::unique_ptr<sessions::encryptor_factory> f2; try{ f2=other.make(other); }catch(std::exception const &){ continue; }
+			sessions::session_cookies oc(f2->get()); Jar jar; session_interface si(pool,jar); oc.save(si,payload(40,3),g_now+100,false,false); try_cookie(w,si.temp_cookie_,cfg.label+" cookie made with key byte "+std::to_string(byte)+(which?" of the second key":"")+" changed");
+			{ Jar j2; j2.value=valid.empty()?std::string():valid[0]; session_interface s2(pool,j2); std::string d2="UNTOUCHED"; time_t e2=0; bool ok2=false; try{ ok2=oc.load(s2,d2,e2); }catch(std::exception const &){} if(ok2) bad("load:other-key-accepts:"+cfg.label,"a cookie issued under the configured key is accepted by the same configuration with one key byte changed","key byte "+std::to_string(byte)+(which?" of the second key":"")); }
+			vf::guard("key_byte_variants"); } } }
 	// encryptor-level tamper
 	for(size_t ci=0;ci<ciphers.size();ci+=(th?1:2)){ const std::string &c=ciphers[ci]; std::string tag=cfg.label+" cipher#"+std::to_string(ci); try_cipher(w,c,tag+" unchanged"); for(size_t bit=0;bit<c.size()*8;bit++){ std::string m=c; m[bit/8]^=(char)(1<<(bit%8)); try_cipher(w,m,tag+" bitflip"); } for(size_t n=0;n<c.size();n++) try_cipher(w,c.substr(0,n),tag+" truncated"); for(int ext=1;ext<=17;ext++) try_cipher(w,c+std::string(ext,'\0'),tag+" extended"); try_cipher(w,"",tag+" empty"); }
 	vf::guard("accepted",n_accept); vf::guard("rejected",n_reject); n_accept=n_reject=0; vf::outcome(cfg.label); }
@@ -118,13 +124,13 @@ static void config_refusals(){ // keys shorter than 16 bytes and encryption with
 	{ json::value s; s["session"]["location"]="client"; s["session"]["client"]["encryptor"]="hmac"; s["session"]["client"]["key"]=hexkey(8,0); bool t=false; try{ session_pool p(s); p.init(); Jar j; session_interface si(p,j); si.load(); si.set("a","b"); si.save(); }catch(std::exception const &){ t=true; } if(!t) bad("config:short-key-accepted-pool","an 8-byte key is accepted through the session_pool configuration","hmac key8"); else vf::guard("config_refusals"); } }
 
 int main(int argc,char **argv){ vf::init(argc,argv,"C05","fault_enumeration"); bool th=true; bool big=vf::thorough(); std::vector<Cfg> cfgs=configs(th); (void)big;
-	vf::C().rule="per key configuration: 13 key configurations (hmac-md5/sha1/sha224/sha256/sha384/sha512 with key lengths 16..129, aes128/192/256 with derived, combined and split keys); 3 cookies for each of 12 payload lengths 0..255 (thorough: + 1000, 4096) + an expiry grid {now-1, now, now+1} under a virtual clock; for the cookies: every single-bit flip of the decoded cipher text, every truncation, head cuts, extensions/prefixes by 1..17 bytes of 00/ff, every 16-byte block copy/swap/duplication, every single-character substitution of the cookie text by 69 characters, every single-character deletion, insertion of 4 characters at every (3rd) position, appending 1..6 characters, 'C'+n characters for n = 1..40, byte-granular splices with other valid cookies, transplants from every other configuration and from the same algorithm under another key, specials; the same at encryptor::decrypt level; for the AES configurations every sequence of <= 5 (6) operations {encrypt(p1), encrypt(p2), decrypt(valid x0), decrypt(valid x1), decrypt(damaged)} on one encryptor: first cipher blocks pairwise distinct over all encrypt calls of all sequences, round trip, decrypt verdicts independent of history. distinct = key configurations (each a different code path: digest, key derivation, split keys); all non-trivial";
+	vf::C().rule="per key configuration: 13 key configurations (hmac-md5/sha1/sha224/sha256/sha384/sha512 with key lengths 16..129, aes128/192/256 with derived, combined and split keys); 3 cookies for each of 12 payload lengths 0..255 (thorough: + 1000, 4096) + an expiry grid {now-1, now, now+1} under a virtual clock; for the cookies: every single-bit flip of the decoded cipher text, every truncation, head cuts, extensions/prefixes by 1..17 bytes of 00/ff, every 16-byte block copy/swap/duplication, every single-character substitution of the cookie text by 69 characters, every single-character deletion, insertion of 4 characters at every (3rd) position, appending 1..6 characters, 'C'+n characters for n = 1..40, byte-granular splices with other valid cookies, transplants from every other configuration, from the same algorithm under another key and under the same key with EACH single key byte changed (both directions), specials; the same at encryptor::decrypt level; for the AES configurations every sequence of <= 5 (6) operations {encrypt(p1), encrypt(p2), decrypt(valid x0), decrypt(valid x1), decrypt(damaged)} on one encryptor: first cipher blocks pairwise distinct over all encrypt calls of all sequences, round trip, decrypt verdicts independent of history. distinct = key configurations (each a different code path: digest, key derivation, split keys); all non-trivial";
 	vf::assume("'decodes to' is defined by b64url::decode (whose exactness is C15's subject): text differing only in unused trailing bits or in characters the decoder maps to the same sextet is the same cipher text"); vf::assume("secrecy is a cryptographic claim enumeration cannot decide: only necessary conditions are checked (a fresh first cipher block for every encrypt call over all operation sequences on an encryptor, equal lengths for equal payload lengths, no 4-byte plaintext window in the cipher text)"); vf::assume("at expiry == now either verdict is accepted"); vf::assume("a sub-pass repeats four configurations (reduced tamper set) with the clock in 2039 (time_t beyond 2^31)");
 	if(!vf::C().replay_file.empty()) printf("replay: C05 cases are deterministic functions of the configuration (entropy only affects AES IVs); re-running the quick tier reproduces them\n");
 	if(vf::C().pass=="epoch2039"){ // four configurations again with the clock beyond 2^31 seconds (year 2039): the expiry travels inside the cookie
 		g_T0=(time_t)2200000000LL; vf::parallel(4,4,[&](int i){ json::value s; s["session"]["location"]="client"; s["session"]["client"]["encryptor"]="hmac"; s["session"]["client"]["key"]=hexkey(20,9); session_pool pool(s); pool.init(); run_config(cfgs[i],cfgs,pool,false); vf::guard("epoch2039_configs"); },600); return vf::finish(); }
 	vf::parallel(cfgs.size()+1,16,[&](int i){ if(i==(int)cfgs.size()){ config_refusals(); return; } json::value s; s["session"]["location"]="client"; s["session"]["client"]["encryptor"]="hmac"; s["session"]["client"]["key"]=hexkey(20,9); session_pool pool(s); pool.init(); run_config(cfgs[i],cfgs,pool,th); if(cfgs[i].aes) encryptor_sequences(cfgs[i],vf::thorough()?6:5); },th?1500:250);
 	vf::run_sub("asan","epoch2039");
-	vf::require_guard("roundtrips"); vf::require_guard("epoch2039_configs"); vf::require_guard("bitflips"); vf::require_guard("splices"); vf::require_guard("block_ops"); vf::require_guard("char_substitutions"); vf::require_guard("char_deletions"); vf::require_guard("char_insertions"); vf::require_guard("text_extensions"); vf::require_guard("text_length_classes"); vf::require_guard("transplants"); vf::require_guard("secrecy_checks"); vf::require_guard("encryptor_sequences"); vf::require_guard("encryptor_sequence_encrypts"); vf::require_guard("config_refusals"); vf::require_guard("accepted"); vf::require_guard("rejected");
+	vf::require_guard("roundtrips"); vf::require_guard("epoch2039_configs"); vf::require_guard("bitflips"); vf::require_guard("splices"); vf::require_guard("block_ops"); vf::require_guard("char_substitutions"); vf::require_guard("char_deletions"); vf::require_guard("char_insertions"); vf::require_guard("text_extensions"); vf::require_guard("text_length_classes"); vf::require_guard("transplants"); vf::require_guard("key_byte_variants"); vf::require_guard("secrecy_checks"); vf::require_guard("encryptor_sequences"); vf::require_guard("encryptor_sequence_encrypts"); vf::require_guard("config_refusals"); vf::require_guard("accepted"); vf::require_guard("rejected");
 	// distinct_nontrivial needs >=2: each configuration is one
 	return vf::finish(); }
